@@ -74,6 +74,9 @@ type c05Struct struct {
 
 func c05(c *ev.Ctx) {
 	c.SetRule("truth table from the property statement x value instances of every type and origin (literal, comparison result, map field and struct field via reflection, built-in result, host-function result, SetVariable) x truth-consuming positions (if, while, ternary, && and || on either side, Run's boolean, !), plus all ordered pairs of instances under && and ||; thorough adds random nestings compared with the reference model. Exhaustive over the instance list. Distinct = distinct script; all are non-trivial.")
+	// values that reach a script through objects of unusual shape keep their truth: a hash is a
+	// hash behind every field that holds it (stream shared with C04)
+	c04Shapes(c)
 	var insts []truthInst
 	add := func(name, expr string, truth bool, kind string) {
 		insts = append(insts, truthInst{name, expr, truth, kind})
